@@ -442,7 +442,7 @@ pub fn run(mut ctx: Ctx) -> ! {
              listing unheld logs, TopicLogSync without live mode), in-memory store and SqliteStore, generated relay interleaving; \
              non-trivial = both sides must send something or a side holds a pruned window",
             1_200,
-            20_000,
+            40_000,
         )
         .min_nontrivial(0.4),
         move || pair_strategy(authors, logs, ops),
@@ -455,7 +455,7 @@ pub fn run(mut ctx: Ctx) -> ! {
              4 operations on the wire (fewer than the 1024-entry window); every operation must be handed over once; non-trivial = at least one \
              repeated operation and one delivery",
             600,
-            10_000,
+            15_000,
         )
         .min_nontrivial(0.25),
         move || scripted_strategy(ops),
